@@ -425,7 +425,8 @@ def gen_op(rng: Rng, cfg, kind: str) -> dict:
         return {'op': 'herm_mpo', 'qD': gen_mpo_qD(rng, cfg['qd'], L, min(cfg['Dmax'], 3)), 'sub': s(),
                 'entries': rng.pick(['complex', 'complex', 'real'])}
     if kind == 'from_vector':
-        return {'op': 'from_vector', 'sel': s(), 'tol': rng.pick(DYADIC_TOLS) if rng.chance(0.6) else 0.0}
+        return {'op': 'from_vector', 'sel': s(), 'tol': rng.pick(DYADIC_TOLS) if rng.chance(0.6) else 0.0,
+                'admix': rng.pick([None, None, 20, 27, 30, 34]), 'sub': s()}
     if kind == 'deepcopy':
         return {'op': 'deepcopy', 'sel': s()}
     if kind == 'share_copy':
